@@ -93,6 +93,20 @@ pub(crate) fn build_slot_helper(helper_name: Ident, is_vnode: Ident) -> FnDecl {
     }
 }
 
+pub(crate) fn jsx_member_to_expr(expr: &JSXMemberExpr) -> Expr {
+    Expr::Member(MemberExpr {
+        span: DUMMY_SP,
+        obj: Box::new(match &expr.obj {
+            JSXObject::Ident(ident) if ident.sym == "this" => {
+                Expr::This(ThisExpr { span: ident.span })
+            }
+            JSXObject::Ident(ident) => Expr::Ident(ident.clone()),
+            JSXObject::JSXMemberExpr(expr) => jsx_member_to_expr(expr),
+        }),
+        prop: MemberProp::Ident(expr.prop.clone()),
+    })
+}
+
 pub(crate) fn is_jsx_attr_value_constant(value: &JSXAttrValue) -> bool {
     match value {
         JSXAttrValue::Lit(..) => true,
